@@ -246,6 +246,20 @@ public:
 
     // Interfaces not inherited from XalanDocument...
 
+    /**
+     * Reserve the next document-order index of this document, for a
+     * node that is created outside of the document but whose
+     * descendants are created by it, like the root of a result tree
+     * fragment.
+     *
+     * @return the reserved index
+     */
+    IndexType
+    reserveNextIndexValue()
+    {
+        return m_nextIndexValue++;
+    }
+
     static bool
     getPoolAllTextNodes()
     {
